@@ -238,6 +238,22 @@ func conc(pkg *packages.Package, file *ast.File, relName string, r *report) bool
 				}
 			case "sync/atomic":
 				r.Uninstrumented = append(r.Uninstrumented, site(n, "atomic."+n.Sel.Name))
+			case "time":
+				switch n.Sel.Name {
+				case "Now", "Sleep", "Since", "Until":
+					r.Sites = append(r.Sites, site(n, "time."+n.Sel.Name))
+					n.X = ast.NewIdent("verifsim")
+					changed = true
+				case "After", "Tick", "NewTimer", "NewTicker", "AfterFunc":
+					r.Uninstrumented = append(r.Uninstrumented, site(n, "time."+n.Sel.Name))
+				}
+			case "context":
+				switch n.Sel.Name {
+				case "WithTimeout", "WithDeadline":
+					r.Sites = append(r.Sites, site(n, "context."+n.Sel.Name))
+					n.X = ast.NewIdent("verifsim")
+					changed = true
+				}
 			}
 		case *ast.GoStmt:
 			nGo++
@@ -359,7 +375,7 @@ func conc(pkg *packages.Package, file *ast.File, relName string, r *report) bool
 	}, nil)
 	if changed {
 		astutil.AddImport(pkg.Fset, file, simPath)
-		for _, p := range []string{"sync", "os/exec"} {
+		for _, p := range []string{"sync", "os/exec", "time", "context"} {
 			if !astutil.UsesImport(file, p) {
 				astutil.DeleteImport(pkg.Fset, file, p)
 			}
